@@ -143,6 +143,7 @@ func verifReloadScenario(sameSlot bool) {
 //
 //verif:native off
 //verif:preempt 1
+//verif:preemptcalls github.com/relex/slog-agent/run
 //verif:delays 1
 //verif:thorough delays 2
 //verif:steps 40000000
